@@ -10,6 +10,7 @@ require (
 	github.com/benbjohnson/litestream v0.0.0
 	github.com/mattn/go-sqlite3 v1.14.19
 	github.com/pierrec/lz4/v4 v4.1.23
+	github.com/psanford/sqlite3vfs v0.0.0-20260519004904-f9180fa2acc9
 	github.com/superfly/ltx v0.5.2
 	modernc.org/sqlite v1.49.1
 	pgregory.net/rapid v1.3.0
@@ -50,7 +51,6 @@ require (
 	github.com/prometheus/client_model v0.5.0 // indirect
 	github.com/prometheus/common v0.45.0 // indirect
 	github.com/prometheus/procfs v0.12.0 // indirect
-	github.com/psanford/sqlite3vfs v0.0.0-20260519004904-f9180fa2acc9 // indirect
 	github.com/remyoudompheng/bigfft v0.0.0-20230129092748-24d4a6f8daec // indirect
 	golang.org/x/sync v0.21.0 // indirect
 	golang.org/x/sys v0.45.0 // indirect
